@@ -21,7 +21,10 @@ from typing import List
 
 ARG_SHAPES = [{}, {"a": int}, {"a": str}, {"a": int, "b": List[str]}, {"x": type(None)}]
 RET_SHAPES = [None, int, type(None), List[int]]
-YLD_SHAPES = [None, int, str]
+from typing import Union  # noqa: E402
+
+# (the last two are equal as types - and make equal CallTraces - but encode to different JSON texts, i.e. to two distinct rows)
+YLD_SHAPES = [None, int, str, Union[int, str], Union[str, int]]
 
 
 class Clock:
@@ -128,6 +131,15 @@ class ActorMain:
         S.sqlite3 = self.proxy
         S.datetime = FakeDatetimeModule(self.clock)
         self.S = S
+        # time seam: code under test that sleeps (a retry loop around a locked database) parks here instead, so that the
+        # scheduler decides what happens during the sleep; the unchanged tree never sleeps
+        import time as _time
+
+        def _sim_sleep(secs, _self=self):
+            _self.send({"sleeping": secs})
+            _self.recv()
+
+        _time.sleep = _sim_sleep
         signal.signal(signal.SIGXFSZ, signal.SIG_IGN)
         while True:
             cmd = self.recv()
@@ -226,7 +238,16 @@ class ActorMain:
             conn.set_progress_handler(handler, park_every)
         try:
             try:
-                self.store.add(traces)
+                if cmd.get("via_logger"):
+                    # the way traces really arrive: through the store logger's buffer and its flush()
+                    from monkeytype.db.base import CallTraceStoreLogger
+
+                    lg = CallTraceStoreLogger(self.store)
+                    for t in traces:
+                        lg.log(t)
+                    lg.flush()
+                else:
+                    self.store.add(traces)
             finally:
                 if park_every:
                     conn.set_progress_handler(None, 0)
@@ -302,9 +323,15 @@ class Actor:
             return {"err": "actor died"}
         return json.loads(line)
 
-    def call(self, obj, timeout=30):
+    def call(self, obj, timeout=30, auto_wake=True):
         self.send(obj)
-        return self.recv(timeout)
+        r = self.recv(timeout)
+        n = 0
+        while auto_wake and isinstance(r, dict) and "sleeping" in r and n < 8:
+            n += 1
+            self.send({"do": "wake"})
+            r = self.recv(timeout)
+        return r
 
     def kill(self):
         if self.alive:
